@@ -2,6 +2,7 @@ import Pyunicorn.Lemmas.LineDist
 import Pyunicorn.Lemmas.LineDistSeq
 import Pyunicorn.Lemmas.LineDistResample
 import Pyunicorn.Lemmas.LineDistRound
+import Pyunicorn.Lemmas.LineDistEntropy
 /-!
 # C08 — RQA line statistics are exact run-length counts of the matrix
 
@@ -919,6 +920,104 @@ example : (xOps rndCeil).lt (StructC08.metric_supremum (xOps rndCeil) 0 1 1
       (fun a _ => .fin (if a = 0 then 0 else 1/2))) (.fin 1) = true := by decide +kernel
 
 end Doubles
+
+/-! ## Round 4 — the line entropies over the reals (`Real.log`)
+
+`diag_entropy(l_min)`, `vert_entropy(v_min)`, `white_vert_entropy(w_min)` are
+`lineEntropy _epsilon l_min hist = -Σ p·log p`, `p = w / (Σ w + _epsilon)` over the non-zero entries
+`w` of `hist[l_min-1:]` (`entropyWeights`, compared with the implementation in every run). -/
+section Entropy
+
+theorem entropyWeightsFrom_length (i lmin : Nat) (h : List Nat) :
+    (entropyWeightsFrom i lmin h).length ≤ h.length ∧
+    (entropyWeightsFrom i lmin h).length ≤ i + h.length + 1 - lmin := by
+  induction h generalizing i with
+  | nil => simp [entropyWeightsFrom]
+  | cons a t ih =>
+    have := ih (i + 1)
+    simp only [entropyWeightsFrom]
+    split
+    · rename_i hc
+      simp only [List.length_cons]
+      omega
+    · simp only [List.length_cons]
+      omega
+
+/-- at most `N − l_min + 1` length classes can be occupied -/
+theorem entropyWeights_length (lmin : Nat) (h : List Nat) :
+    (entropyWeights lmin h).length ≤ h.length + 1 - lmin := by
+  have := (entropyWeightsFrom_length 0 lmin h).2
+  simpa [entropyWeights] using this
+
+/-- no line of length `≥ l_min`: the entropy is `0` -/
+theorem lineEntropy_empty (eps : ℝ) (lmin : Nat) (hist : List Nat)
+    (h : partialCount lmin hist = 0) : lineEntropy eps lmin hist = 0 := by
+  have hs := entropyWeights_sum lmin hist
+  rw [h] at hs
+  have : entropyWeights lmin hist = [] := by
+    cases hw : entropyWeights lmin hist with
+    | nil => rfl
+    | cons a t =>
+      have hp := entropyWeights_pos lmin hist a (by simp [hw])
+      rw [hw] at hs
+      simp only [List.sum_cons] at hs
+      omega
+  simp [lineEntropy, this, entropyR_nil]
+
+/-- **range of the line entropies, with the code's `_epsilon`**: for every histogram and
+minimal length, `0 ≤ ENTR ≤ log k + eps / (n + eps)`, `k` the number of occupied line lengths
+`≥ l_min` and `n` the number of such lines. -/
+theorem lineEntropy_range (eps : ℝ) (heps : 0 ≤ eps) (lmin : Nat) (hist : List Nat)
+    (hne : partialCount lmin hist ≠ 0) :
+    0 ≤ lineEntropy eps lmin hist ∧
+    lineEntropy eps lmin hist ≤ Real.log ((entropyWeights lmin hist).length : ℝ)
+      + eps / ((partialCount lmin hist : ℝ) + eps) := by
+  have hw : entropyWeights lmin hist ≠ [] := by
+    intro h
+    have := entropyWeights_sum lmin hist
+    rw [h] at this
+    exact hne this.symm
+  have := entropyR_range eps heps (entropyWeights lmin hist) (entropyWeights_pos lmin hist) hw
+  rw [entropyWeights_sum] at this
+  exact this
+
+/-- **the mathematical entropy (`eps = 0`) lies in `[0, log(N − l_min + 1)]`** -/
+theorem lineEntropy_le_log (lmin : Nat) (hist : List Nat) (hne : partialCount lmin hist ≠ 0) :
+    0 ≤ lineEntropy 0 lmin hist ∧
+    lineEntropy 0 lmin hist ≤ Real.log ((hist.length + 1 - lmin : Nat) : ℝ) := by
+  have h := lineEntropy_range 0 (le_refl 0) lmin hist hne
+  refine ⟨h.1, le_trans h.2 ?_⟩
+  simp only [zero_div, add_zero]
+  have hw : entropyWeights lmin hist ≠ [] := by
+    intro h'
+    have := entropyWeights_sum lmin hist
+    rw [h'] at this
+    exact hne this.symm
+  have hpos : 0 < (entropyWeights lmin hist).length := List.length_pos_iff.mpr hw
+  apply Real.log_le_log (by exact_mod_cast hpos)
+  exact_mod_cast entropyWeights_length lmin hist
+
+/-- both ends are attained: one occupied length gives `0`, `k` equally occupied lengths `log k` -/
+theorem lineEntropy_extremes (k m : Nat) (hk : 0 < k) (hm : 0 < m) :
+    lineEntropy 0 1 [m] = 0 ∧ lineEntropy 0 1 (List.replicate k m) = Real.log k := by
+  constructor
+  · have : entropyWeights 1 [m] = [m] := by
+      simp [entropyWeights, entropyWeightsFrom, Nat.pos_iff_ne_zero.mp hm]
+    rw [lineEntropy, this]
+    exact entropyR_single m hm
+  · have key : ∀ (i n : Nat), entropyWeightsFrom i 1 (List.replicate n m) = List.replicate n m := by
+      intro i n
+      induction n generalizing i with
+      | zero => rfl
+      | succ n ih =>
+        simp only [List.replicate_succ, entropyWeightsFrom]
+        rw [if_pos ⟨by omega, Nat.pos_iff_ne_zero.mp hm⟩, ih]
+    rw [lineEntropy, entropyWeights, key]
+    exact entropyR_uniform k m hk hm
+
+example : partialCount 2 [3, 2, 0, 1] ≠ 0 ∧ (entropyWeights 2 [3, 2, 0, 1]).length = 2 := by decide
+
+end Entropy
 
 /-! ### non-vacuity -/
 example : (scalars 2 [3, 2, 0, 1]).ratioNum = 8 ∧ (scalars 2 [3, 2, 0, 1]).ratioDen = 11 ∧
